@@ -78,6 +78,14 @@ def _cases(tier, seed):
     # unknown key, CLI override, accumulation
     yield {'special': 'ini-rules-in-pydoctor-ini', 'text': "project-name = 'tab\\there'", 'want': 'tab\there'}
     yield {'special': 'ini-rules-in-pydoctor-ini', 'text': 'project-name = 100%%', 'want': '100%'}
+    # TOML scalars that are not strings: the same text on the command line means the same thing
+    for text, flag, dest, cli in (('project-version = 2.5', '--project-version', 'projectversion', '2.5'), ('project-name = 0.5', '--project-name', 'projectname', '0.5'),
+                                  ('project-version = 1979-05-27', '--project-version', 'projectversion', '1979-05-27'), ('project-name = 1e3', '--project-name', 'projectname', '1000.0'),
+                                  ('verbose = 2', '--verbose', 'verbosity', None), ('project-name = -7', '--project-name', 'projectname', '-7')):
+        yield {'special': 'toml-scalar', 'text': text, 'flag': flag, 'dest': dest, 'cli': cli}
+    # keys are case-sensitive in TOML: a key that differs from an option only by case is an unknown key
+    for k in ('Project-Name', 'DOCFORMAT', 'Warnings-As-Errors'):
+        yield {'special': 'unknown-key', 'fmt': 'toml', 'key': k}
     for flags in ([], ['--testing'], ['--make-intersphinx'], ['--testing', '--make-intersphinx'], ['--make-html'],
                   ['--make-html', '--testing']):
         yield {'special': 'makehtml-default', 'flags': flags}
@@ -192,6 +200,19 @@ def _check(case):
             if got != case['want']:
                 return {'observed': f'pydoctor.ini line {case["text"]!r} is read as {got!r}', 'required': f'{case["want"]!r} (INI rules)',
                         'class': 'ini-as-toml', 'ini_as_toml': True}
+            return None
+        if case.get('special') == 'toml-scalar':
+            with open(os.path.join(d1, 'pyproject.toml'), 'w') as fh:
+                fh.write('[tool.pydoctor]\n' + case['text'] + '\n')
+            o, _ = _from_args([], d1)
+            if case['cli'] is None:
+                o2, _ = _from_args(['-vv'], d2)
+            else:
+                o2, _ = _from_args([f'{case["flag"]}={case["cli"]}'], d2)
+            g1 = o if isinstance(o, tuple) else getattr(o, case['dest'])
+            g2 = o2 if isinstance(o2, tuple) else getattr(o2, case['dest'])
+            if g1 != g2:
+                return {'observed': f'pyproject.toml line {case["text"]!r} gives {case["dest"]}={g1!r}', 'required': f'{g2!r}, as on the command line', 'class': 'toml-scalar'}
             return None
         if case.get('special') == 'makehtml-default':
             o, _ = _from_args(case['flags'], d1)
